@@ -847,4 +847,380 @@ theorem reduceByStructuredModulus_spec (a multiple : List K) (md : Nat) (hmd : 1
     rw [hsplit]
     exact e3
 
+/-! ### chunk-wise reduction in the NTT domain (stage 1 of `fast_reduce`) -/
+
+/-- what the NTT-based strategies need from the transform pair: lengths are kept and the point-wise product of two
+    transforms, transformed back, is the product of the polynomials whenever that product fits the domain.
+    This is a consequence of "`ntt` is the DFT at a primitive root of unity and `intt` its inverse" (property C06)
+    through the convolution theorem (property C07, `fast_multiply`). -/
+structure NttConv (N : NttOps K) : Prop where
+  length_ntt : ∀ u : List K, isPowerOfTwo u.length = true → (N.ntt u).length = u.length
+  conv : ∀ u v : List K, u.length = v.length → isPowerOfTwo u.length = true →
+    (denote u * denote v).degree < (u.length : WithBot ℕ) →
+    (N.intt (List.zipWith (· * ·) (N.ntt u) (N.ntt v))).length = u.length ∧
+    denote (N.intt (List.zipWith (· * ·) (N.ntt u) (N.ntt v))) = denote u * denote v
+
+theorem degree_mul_lt_add {A B : K[X]} {a b : Nat} (hA : A.degree < a) (hB : B.degree < b) :
+    (A * B).degree < ((a + b : Nat) : WithBot ℕ) := by
+  by_cases hA0 : A = 0
+  · rw [hA0, zero_mul, degree_zero]; exact WithBot.bot_lt_coe _
+  by_cases hB0 : B = 0
+  · rw [hB0, mul_zero, degree_zero]; exact WithBot.bot_lt_coe _
+  rw [degree_mul, degree_eq_natDegree hA0, degree_eq_natDegree hB0]
+  rw [degree_eq_natDegree hA0] at hA
+  rw [degree_eq_natDegree hB0] at hB
+  have h1 : A.natDegree < a := by exact_mod_cast hA
+  have h2 : B.natDegree < b := by exact_mod_cast hB
+  exact_mod_cast (by omega : A.natDegree + B.natDegree < a + b)
+
+theorem nttReduceLoop_spec (N : NttOps K) (hN : NttConv N) (a low : List K) (chunk tail : Nat)
+    (hchunk : 0 < chunk) (hpow : isPowerOfTwo (chunk + tail) = true) (hlow : low.length = chunk + tail)
+    (hS : (denote low).degree < tail) (k : Nat) (ww : List K) (hww : ww.length = chunk + tail)
+    (hk : k * chunk ≤ a.length) :
+    ∃ r, nttReduceLoop FK N a (N.ntt low) chunk tail k ww = some r ∧ r.length = chunk + tail ∧
+      (X ^ (chunk + tail) + denote low : K[X]) ∣
+        (denote (a.take (k * chunk)) + X ^ (k * chunk) * denote ww) - denote r := by
+  induction k generalizing ww with
+  | zero => exact ⟨ww, by simp [nttReduceLoop], hww, by simp⟩
+  | succ k ih =>
+    have hk' : k * chunk + chunk ≤ a.length := by rw [Nat.succ_mul] at hk; exact hk
+    set H := denote (ww.drop tail) with hH
+    set L := denote (ww.take tail) with hL
+    have hWsplit : denote ww = L + X ^ tail * H := by
+      conv_lhs => rw [← List.take_append_drop tail ww]
+      rw [denote_append, List.length_take, Nat.min_eq_left (by omega)]
+    have hHdeg : H.degree < chunk := by
+      have := degree_denote_lt (ww.drop tail)
+      rwa [List.length_drop, hww, Nat.add_sub_cancel] at this
+    set hp := ww.drop tail ++ List.replicate tail (FK).zero with hhp
+    have hhpl : hp.length = chunk + tail := by
+      rw [hhp, List.length_append, List.length_drop, List.length_replicate, hww]; omega
+    have hhpd : denote hp = H := denote_append_zeros _ _
+    have hc1 : nttChecked N hp = some (N.ntt hp) := by
+      unfold nttChecked; rw [hhpl, hpow]; simp
+    set prodl := N.intt (List.zipWith (FK).mul (N.ntt hp) (N.ntt low)) with hprodl
+    have hzl : (List.zipWith (FK).mul (N.ntt hp) (N.ntt low)).length = chunk + tail := by
+      rw [List.length_zipWith, hN.length_ntt _ (by rw [hhpl]; exact hpow),
+        hN.length_ntt _ (by rw [hlow]; exact hpow), hhpl, hlow]; simp
+    have hc2 : inttChecked N (List.zipWith (FK).mul (N.ntt hp) (N.ntt low)) = some prodl := by
+      unfold inttChecked; rw [hzl, hpow]; simp [hprodl]
+    have hconv := hN.conv hp low (by rw [hhpl, hlow]) (by rw [hhpl]; exact hpow)
+        (by rw [hhpl, hhpd]; exact degree_mul_lt_add hHdeg hS)
+    have hpl : prodl.length = chunk + tail := by rw [hprodl]; exact hconv.1.trans hhpl
+    have hprod : denote prodl = H * denote low := by
+      have := hconv.2
+      rw [hhpd] at this
+      exact this
+    set fresh := (a.drop (k * chunk)).take chunk with hfresh
+    have hfl : fresh.length = chunk := by
+      rw [hfresh, List.length_take, List.length_drop]; omega
+    have hwl : (fresh ++ ww.take tail).length = chunk + tail := by
+      rw [List.length_append, hfl, List.length_take]; omega
+    obtain ⟨s1, s2⟩ := subPadded_spec root (fresh ++ ww.take tail) prodl
+    rw [hwl] at s1 s2
+    have htk : prodl.take (chunk + tail) = prodl := List.take_of_length_le (by omega)
+    rw [htk, hprod, denote_append, hfl] at s2
+    obtain ⟨r, e1, e2, e3⟩ := ih (subPadded FK (fresh ++ ww.take tail) prodl) s1 (by omega)
+    refine ⟨r, ?_, e2, ?_⟩
+    · simp only [nttReduceLoop]
+      rw [← hhp, hc1]
+      simp only
+      rw [hc2]
+      simp only
+      rw [← hfresh, if_neg (by rw [hfl]; omega), if_neg (by rw [hwl, hpl]; omega)]
+      exact e1
+    · have htake : denote (a.take ((k + 1) * chunk)) = denote (a.take (k * chunk)) + X ^ (k * chunk) * denote fresh := by
+        rw [Nat.succ_mul, List.take_add, denote_append, List.length_take, Nat.min_eq_left (by omega)]
+      have hdiff : (denote (a.take ((k + 1) * chunk)) + X ^ ((k + 1) * chunk) * denote ww) - denote r
+          = ((denote (a.take (k * chunk)) + X ^ (k * chunk) *
+              denote (subPadded FK (fresh ++ ww.take tail) prodl)) - denote r)
+            + X ^ (k * chunk) * H * (X ^ (chunk + tail) + denote low) := by
+        rw [htake, s2, hWsplit, Nat.succ_mul, pow_add, pow_add]
+        ring
+      rw [hdiff]
+      exact dvd_add e3 (Dvd.intro_left _ rfl)
+
+/-- `reduce_by_ntt_friendly_modulus(ntt(low), tail)` for `low` of power-of-two length `n` and degree `< tail < n`:
+    it does not panic and returns something congruent to the input modulo `X^n + low` -/
+theorem reduceByNttFriendlyModulus_spec (N : NttOps K) (hN : NttConv N) (a low : List K) (tail : Nat)
+    (hpow : isPowerOfTwo low.length = true) (htail : tail < low.length) (hS : (denote low).degree < tail) :
+    ∃ r, reduceByNttFriendlyModulus FK N a (N.ntt low) tail = some r ∧
+      (X ^ low.length + denote low : K[X]) ∣ denote a - denote r := by
+  unfold reduceByNttFriendlyModulus
+  simp only [hN.length_ntt low hpow, hpow, Bool.not_true, Bool.false_eq_true, if_false]
+  rw [if_neg (by omega)]
+  have hct : low.length - tail + tail = low.length := by omega
+  split
+  · exact ⟨a, rfl, by simp⟩
+  · next hlen =>
+    have hc : 0 < low.length - tail := by omega
+    rw [if_neg (by omega)]
+    set chunk := low.length - tail with hchunk
+    set nc := divCeil (a.length - (tail + chunk)) chunk with hnc
+    have h1 := divCeil_mul_ge (a.length - (tail + chunk)) chunk hc
+    have h2 := divCeil_mul_lt (a.length - (tail + chunk)) chunk hc
+    rw [← hnc] at h1 h2
+    rw [if_neg (by omega)]
+    obtain ⟨rl, rd⟩ := resize_spec root (a.drop (nc * chunk)) (chunk + tail)
+      (by rw [List.length_drop]; omega)
+    obtain ⟨r, e1, _, e3⟩ := nttReduceLoop_spec root N hN a low chunk tail hc (by rw [hct]; exact hpow)
+      (by omega) hS nc _ rl (by omega)
+    refine ⟨r, e1, ?_⟩
+    rw [rd, hct] at e3
+    have hsplit : denote a = denote (a.take (nc * chunk)) + X ^ (nc * chunk) * denote (a.drop (nc * chunk)) := by
+      conv_lhs => rw [← List.take_append_drop (nc * chunk) a]
+      rw [denote_append, List.length_take, Nat.min_eq_left (by omega)]
+    rw [hsplit]
+    exact e3
+
+/-! ### `shift_factor_ntt_with_tail_length`, `fast_reduce` -/
+
+theorem isPowerOfTwo_nextPowerOfTwo (x : Nat) : isPowerOfTwo (nextPowerOfTwo x) = true := by
+  unfold nextPowerOfTwo isPowerOfTwo
+  split
+  · decide
+  · rw [Nat.log2_two_pow]
+    simp
+
+theorem le_nextPowerOfTwo (x : Nat) : x ≤ nextPowerOfTwo x := by
+  unfold nextPowerOfTwo
+  split
+  · omega
+  · have := @Nat.lt_log2_self (x - 1)
+    omega
+
+theorem mod_eq_of_dvd_sub {a b m : K[X]} (hm : m ≠ 0) (h : m ∣ a - b) : a % m = b % m := by
+  obtain ⟨k, hk⟩ := h
+  have h2 : b = (b / m) * m + b % m := by
+    have := EuclideanDomain.div_add_mod b m
+    rw [mul_comm] at this
+    exact this.symm
+  have hcert : a = (k + b / m) * m + b % m := by linear_combination hk + h2
+  exact ((div_mod_of_certificate hcert (degree_mod_lt b hm)).2).symm
+
+/-- `shift_factor_ntt_with_tail_length` for a modulus of degree ≥ 1: the transform of the low `n` coefficients of
+    a monic multiple `X^n + low` (`n` a power of two), and a tail length with `deg low < tail < n` -/
+theorem shiftFactorNtt_spec (N : NttOps K) (cutoff : Nat) (m : List K) (hm : denote m ≠ 0)
+    (hd : 1 ≤ (denote m).natDegree) :
+    ∃ low tail, shiftFactorNtt FK N cutoff m = some (N.ntt low, tail) ∧ isPowerOfTwo low.length = true ∧
+      tail < low.length ∧ (denote low).degree < tail ∧ denote m ∣ X ^ low.length + denote low := by
+  unfold shiftFactorNtt
+  have hds := degSucc_spec root m
+  rw [if_neg hm] at hds
+  rw [hds]
+  simp only
+  set d := (denote m).natDegree with hdd
+  set n := nextPowerOfTwo (max cutoff (d * 2)) with hn
+  have hnge : d * 2 ≤ n := le_trans (le_max_right _ _) (le_nextPowerOfTwo _)
+  obtain ⟨mult, h1, h2, h3, h4, h5⟩ := structuredMultipleOfDegree_spec root m n hm (by omega)
+  obtain ⟨h5a, h5b⟩ := h5 hd
+  rw [h1]
+  simp only
+  rw [if_neg (by omega)]
+  have hlowlen : (mult.take n).length = n := by rw [List.length_take]; omega
+  have hlow : denote (mult.take n) = denote mult - X ^ n := by
+    rw [(denote_take_drop mult n (by omega)).2]
+    have hcert : denote mult = 1 * X ^ n + (denote mult - X ^ n) := by ring
+    have hdeg : (denote mult - X ^ n).degree < (X ^ n : K[X]).degree := by
+      rw [degree_X_pow]
+      refine lt_of_lt_of_le h5b ?_
+      rw [degree_eq_natDegree hm]
+      exact_mod_cast (by omega : d ≤ n)
+    exact ((div_mod_of_certificate hcert hdeg).2).symm
+  have hc : nttChecked N (mult.take n) = some (N.ntt (mult.take n)) := by
+    unfold nttChecked; rw [hlowlen, isPowerOfTwo_nextPowerOfTwo]; simp
+  rw [hc]
+  have hdrop : mult.dropLast = mult.take n := by rw [List.dropLast_eq_take, h2]; rfl
+  have hlowdeg : (denote (mult.take n)).degree < (d : WithBot ℕ) := by
+    rw [hlow]; rw [degree_eq_natDegree hm] at h5b; exact h5b
+  have hdsl : degSucc FK (mult.take n) ≤ d := degSucc_le_of_degree_lt root _ _ hlowdeg
+  refine ⟨mult.take n, 1 + ((revNorm FK mult.dropLast).length - 1), rfl, ?_, ?_, ?_, ?_⟩
+  · rw [hlowlen]; exact isPowerOfTwo_nextPowerOfTwo _
+  · rw [hdrop, length_revNorm, hlowlen]; omega
+  · rw [hdrop, length_revNorm]
+    refine lt_of_lt_of_le (degree_lt_degSucc root _) ?_
+    exact_mod_cast (by omega : degSucc FK (mult.take n) ≤ 1 + (degSucc FK (mult.take n) - 1))
+  · rw [hlowlen, hlow]
+    have : (X ^ n + (denote mult - X ^ n) : K[X]) = denote mult := by ring
+    rw [this]; exact h3
+
+theorem natDegree_pos_of_degree_ne_zero {m : K[X]} (hm : m ≠ 0) (h : m.degree ≠ 0) : 1 ≤ m.natDegree := by
+  rw [degree_eq_natDegree hm] at h
+  by_contra hlt
+  have : m.natDegree = 0 := by omega
+  rw [this] at h
+  exact h rfl
+
+/-- **`fast_reduce`** on every dividend and every non-zero modulus, any storage, every value of the two thresholds:
+    it does not panic and returns the remainder, given a transform pair with the convolution property -/
+theorem fastReduce_spec (N : NttOps K) (hN : NttConv N) (cutoff stage2 : Nat) (a m : List K)
+    (hm : denote m ≠ 0) :
+    ∃ r, fastReduce FK N cutoff stage2 a m = some r ∧ denote r = denote a % denote m := by
+  unfold fastReduce
+  split
+  · next h0 =>
+    exact ⟨[], rfl, by rw [mod_of_degree_zero _ _ ((degree_zero_iff root m).1 h0)]; rfl⟩
+  · next h0 =>
+    split
+    · next hlt =>
+      exact ⟨a, rfl, ((mod_eq_self_iff hm).2 ((degree_lt_iff root a m).1 hlt)).symm⟩
+    · have hd : 1 ≤ (denote m).natDegree :=
+        natDegree_pos_of_degree_ne_zero hm (fun h => h0 ((degree_zero_iff root m).2 h))
+      obtain ⟨low, tail, s1, s2, s3, s4, s5⟩ := shiftFactorNtt_spec root N cutoff m hm hd
+      rw [s1]
+      simp only
+      obtain ⟨ir, t1, t2⟩ := reduceByNttFriendlyModulus_spec root N hN a low tail s2 s3 s4
+      rw [t1]
+      simp only
+      have hir : denote m ∣ denote a - denote ir := dvd_trans s5 t2
+      -- stage 2
+      have hstage2 : ∃ r2, fastReduceStage2 FK stage2 ir m = some r2 ∧ denote m ∣ denote a - denote r2 := by
+        unfold fastReduceStage2
+        split
+        · unfold structuredMultiple
+          have hds := degSucc_spec root m
+          rw [if_neg hm] at hds
+          rw [hds]
+          simp only
+          obtain ⟨sm, u1, _, u3, u4, u5⟩ := structuredMultipleOfDegree_spec root m
+            (3 * (denote m).natDegree + 1) hm (by omega)
+          obtain ⟨u5a, u5b⟩ := u5 hd
+          rw [u1]
+          simp only
+          obtain ⟨r2, v1, v2⟩ := reduceByStructuredModulus_spec root ir sm (3 * (denote m).natDegree + 1)
+            (by omega) u5a u4 (by
+              refine lt_of_lt_of_le u5b ?_
+              rw [degree_eq_natDegree hm]
+              exact_mod_cast (by omega : (denote m).natDegree ≤ 3 * (denote m).natDegree + 1 - 1))
+          refine ⟨r2, v1, ?_⟩
+          have : denote a - denote r2 = (denote a - denote ir) + (denote ir - denote r2) := by ring
+          rw [this]
+          exact dvd_add hir (dvd_trans u3 v2)
+        · exact ⟨ir, rfl, hir⟩
+      obtain ⟨r2, w1, w2⟩ := hstage2
+      rw [w1]
+      simp only
+      obtain ⟨r, x1, x2⟩ := rem_spec root r2 m hm
+      exact ⟨r, x1, by rw [x2]; exact (mod_eq_of_dvd_sub hm w2).symm⟩
+
+/-- "`ntt` is the DFT, `intt` its inverse" — the statement of property C06 as far as the evaluation-domain
+    strategies (`formal_power_series_inverse_newton`, `clean_divide`) use it: `ω n` is the primitive `n`-th root of
+    unity chosen for length `n`, the choices are compatible (`ω n ^ (n/m) = ω m`) -/
+structure NttDft {L : Type} [Field L] (N : NttOps L) (ω : Nat → L) : Prop where
+  ntt_eval : ∀ l : List L, isPowerOfTwo l.length = true →
+    N.ntt l = List.ofFn (fun i : Fin l.length => (denote l).eval (ω l.length ^ (i : Nat)))
+  intt_ntt : ∀ l : List L, isPowerOfTwo l.length = true → N.intt (N.ntt l) = l
+  primitive : ∀ n, isPowerOfTwo n = true → ω n ^ n = 1 ∧ ∀ i, 0 < i → i < n → ω n ^ i ≠ 1
+  compat : ∀ n m, isPowerOfTwo n = true → isPowerOfTwo m = true → m ∣ n → ω n ^ (n / m) = ω m
+
+/-! ### Newton iteration, polynomial-arithmetic rounds -/
+
+theorem newtonStandard_spec (f : List K) (k : Nat) (g : List K) (e : Nat)
+    (h : (X ^ e : K[X]) ∣ denote f * denote g - 1) :
+    (X ^ (e * 2 ^ k) : K[X]) ∣ denote f * denote (newtonStandard FK f k g) - 1 := by
+  induction k generalizing g e with
+  | zero => simpa [newtonStandard] using h
+  | succ k ih =>
+    simp only [newtonStandard]
+    have hstep : (X ^ (e * 2) : K[X]) ∣ denote f * denote (Model.Poly.sub FK (Model.Poly.scalarMul FK g ((FK).ofNat 2))
+        (Model.Poly.mul FK (Model.Poly.mul FK g g) f)) - 1 := by
+      rw [denote_sub, denote_scalarMul, denote_mul, denote_mul]
+      obtain ⟨c, hc⟩ := h
+      refine ⟨-(c * c), ?_⟩
+      have h2 : (C ((FK).ofNat 2) : K[X]) = 2 := by
+        simp only [FieldOps.ofField_ofNat, Nat.cast_ofNat]; exact C_ofNat 2
+      rw [h2, pow_mul, pow_two]
+      linear_combination (-(denote f * denote g - 1) - X ^ e * c) * hc
+    have := ih _ (e * 2) hstep
+    rw [show e * 2 ^ (k + 1) = e * 2 * 2 ^ k by rw [pow_succ]; ring]
+    exact this
+
+theorem two_pow_log2_nextPowerOfTwo (p : Nat) : 2 ^ Nat.log2 (nextPowerOfTwo p) = nextPowerOfTwo p := by
+  have := isPowerOfTwo_nextPowerOfTwo p
+  unfold isPowerOfTwo at this
+  simp only [Bool.and_eq_true, beq_iff_eq] at this
+  exact this.2
+
+/-- `formal_power_series_inverse_newton(precision)` in the arms that use polynomial arithmetic only (constant `f`;
+    `switch_point ≥ num_rounds`): `f·g ≡ 1 (mod X^precision)` for every precision, every storage of `f` with non-zero
+    constant term, every value of the cut-off -/
+theorem fpsInverseNewton_standard_spec (N : NttOps K) (cutoff : Nat) (f : List K) (precision : Nat)
+    (h0 : (denote f).coeff 0 ≠ 0)
+    (harm : (denote f).natDegree = 0 ∨
+      Nat.log2 (nextPowerOfTwo precision) ≤
+        (if cutoff < (denote f).natDegree then 0 else Nat.log2 (cutoff / (denote f).natDegree))) :
+    ∃ g, fpsInverseNewton FK N cutoff f precision = some g ∧
+      (X ^ precision : K[X]) ∣ denote f * denote g - 1 := by
+  have hf : denote f ≠ 0 := by intro h; rw [h] at h0; simp at h0
+  cases f with
+  | nil => simp at h0
+  | cons cc ft =>
+    have hcc : cc ≠ 0 := by simpa using h0
+    have hdeg := degree_spec root (cc :: ft)
+    rw [if_neg hf] at hdeg
+    unfold fpsInverseNewton
+    simp only [hdeg]
+    by_cases hd0 : (denote (cc :: ft)).natDegree = 0
+    · rw [if_pos (by exact_mod_cast hd0)]
+      refine ⟨[cc⁻¹], rfl, ?_⟩
+      have hc : denote (cc :: ft) = C cc := by
+        have := eq_C_of_natDegree_eq_zero hd0
+        rw [this]; simp
+      rw [hc]
+      have : (C cc : K[X]) * denote [cc⁻¹] - 1 = 0 := by
+        simp only [denote_cons, denote_nil, mul_zero, add_zero]
+        rw [← C_mul, mul_inv_cancel₀ hcc, C_1, sub_self]
+      rw [this]; exact dvd_zero _
+    · rw [if_neg (by exact_mod_cast hd0), if_neg (by omega)]
+      have harm' := harm.resolve_left hd0
+      simp only [Int.toNat_natCast]
+      rw [if_neg (by rw [FieldOps.ofField_isZero]; exact hcc)]
+      rw [if_pos harm', Nat.min_eq_left harm']
+      refine ⟨_, rfl, ?_⟩
+      have hinit : (X ^ 1 : K[X]) ∣ denote (cc :: ft) * denote [(FK).inv cc] - 1 := by
+        refine ⟨denote ft * C cc⁻¹, ?_⟩
+        have : (C cc : K[X]) * C cc⁻¹ = 1 := by rw [← C_mul, mul_inv_cancel₀ hcc, C_1]
+        simp only [FieldOps.ofField_inv, denote_cons, denote_nil, mul_zero, add_zero, pow_one]
+        linear_combination this
+      have := newtonStandard_spec root (cc :: ft) (Nat.log2 (nextPowerOfTwo precision)) [(FK).inv cc] 1 hinit
+      rw [one_mul, two_pow_log2_nextPowerOfTwo] at this
+      exact dvd_trans (pow_dvd_pow X (le_nextPowerOfTwo precision)) this
+
+/-- `formal_power_series_inverse_newton` panics when `f` is zero/empty or its constant term is zero (degree ≥ 1) -/
+theorem fpsInverseNewton_none (N : NttOps K) (cutoff : Nat) (f : List K) (precision : Nat)
+    (h : denote f = 0 ∨ (1 ≤ (denote f).natDegree ∧ (denote f).coeff 0 = 0)) :
+    fpsInverseNewton FK N cutoff f precision = none := by
+  unfold fpsInverseNewton
+  have hdeg := degree_spec root f
+  rcases h with h | ⟨h1, h2⟩
+  · rw [if_pos h] at hdeg
+    simp only [hdeg]
+    rfl
+  · have hf : denote f ≠ 0 := by intro h; rw [h] at h1; simp at h1
+    rw [if_neg hf] at hdeg
+    simp only [hdeg]
+    rw [if_neg (by exact_mod_cast (by omega : (denote f).natDegree ≠ 0)), if_neg (by omega)]
+    cases f with
+    | nil => rfl
+    | cons cc ft =>
+      have hcc : cc = 0 := by simpa using h2
+      simp only
+      rw [if_pos ((FieldOps.ofField_isZero root cc).2 hcc)]
+
+/-! ### `clean_divide`, the long-division arm -/
+
+/-- below the cut-off `clean_divide` is long division: for a clean division it returns the exact quotient -/
+theorem cleanDivide_below_cutoff {χ : Type} (FX : FieldOps χ) (E : ExtOps K χ) (NX : NttOps χ) (cutoff : Nat)
+    (a d : List K) (hd : denote d ≠ 0) (hlt : (denote d).natDegree < cutoff) :
+    ∃ q, cleanDivide FK FX E NX cutoff a d = some q ∧ denote q = denote a / denote d ∧
+      (denote d ∣ denote a → denote q * denote d = denote a) := by
+  unfold cleanDivide
+  have hdeg := degree_spec root d
+  rw [if_neg hd] at hdeg
+  rw [if_pos (by rw [hdeg]; exact_mod_cast hlt)]
+  obtain ⟨q, h1, h2⟩ := div_spec root a d hd
+  refine ⟨q, h1, h2, fun hdvd => ?_⟩
+  rw [h2, mul_comm]
+  exact EuclideanDomain.mul_div_cancel' hd hdvd
+
 end TF.Proofs.PolyD
